@@ -46,6 +46,8 @@ type fakeRunner struct {
 
 var _ taskctl.Runner = &fakeRunner{}
 
+var errNotExit = errors.New("template: script:1: function \"nope\" not defined")
+
 // an error text with characters that must survive persisting and reloading unchanged
 var errExit1 = errors.New("exit status 1: 100% of /data used, %d left, \"quoted\" %s\nsecond line")
 
@@ -125,6 +127,13 @@ func (f *fakeRunner) Run(t *task.Task) error {
 			f.notify(t)
 			err = errExit1
 		}
+	case "err":
+		// an error that is not an exit status (e.g. the command could not be compiled, the output store failed): execute()
+		// reports it as an errored task even for allow_failure tasks
+		t.Errored = true
+		t.Error = errNotExit
+		f.notify(t)
+		err = errNotExit
 	case "canceled":
 		t.Errored = true
 		t.Error = context.Canceled
